@@ -134,6 +134,20 @@ def _run_algo(ctx, algo_name, env_names):
             ctx.case({**info, "twin": "other-key"}, nontrivial=moved > 0, cls=f"{algo_name}/other-key")
             if leaves_equal(p1, p2):
                 ctx.violation("different-keys-identical-runs", info)
+            if c == 0:
+                # old-style keys (jax.random.PRNGKey(seed), raw uint32[2]) are keys too: two of them are two runs
+                from jax import random as jr
+
+                la, lb = int(ctx.rng.integers(1, 50)), int(ctx.rng.integers(50, 100))
+                pl_a = algo.learn(env, pol, T, key=jr.PRNGKey(la))
+                pl_b = algo.learn(env, pol, T, key=jr.PRNGKey(lb))
+                pl_a2 = algo.learn(env, pol, T, key=jr.PRNGKey(la))
+                ctx.case({**info, "twin": "legacy-keys", "seeds": [la, lb]}, nontrivial=moved > 0, cls=f"{algo_name}/legacy-keys")
+                ctx.monitor("legacy_key_pairs")
+                if leaves_equal(pl_a, pl_b):
+                    ctx.violation("different-keys-identical-runs", {**info, "keys": f"jr.PRNGKey({la}) vs jr.PRNGKey({lb})"})
+                if not leaves_equal(pl_a, pl_a2):
+                    ctx.violation("same-inputs-different-parameters", {**info, "key": f"jr.PRNGKey({la})", "maxdiff": leaves_maxdiff(pl_a, pl_a2)})
             after = inexact_leaves(pol)
             ctx.case({**info, "twin": "input-policy"}, nontrivial=moved > 0, cls=f"{algo_name}/input-untouched")
             if not all(np.array_equal(a, b) for a, b in zip(before, after)):
